@@ -1044,17 +1044,9 @@ fn gen_case(rng: &mut Rng, pro_fams: &[usize], kinds: &[&str], child_fams: &[usi
 
 const NFAM: usize = 15;
 
-/// A mutator family for the prologue. `cd` and `umask` in the prologue expose the known defect of
-/// `Process::fork_from` (child does not inherit cwd/umask), which masks everything else in the case, so
-/// they are drawn less often there (they stay fully weighted in the child and during-`&` positions).
+/// A mutator family for the prologue (uniform over all families).
 fn pro_fam(rng: &mut Rng) -> usize {
-    loop {
-        let f = rng.below(NFAM);
-        if (f == 10 || f == 11) && !rng.chance(1, 5) {
-            continue;
-        }
-        return f;
-    }
+    rng.below(NFAM)
 }
 
 fn main() {
